@@ -651,7 +651,76 @@ func init() {
 			}})
 		}
 	}
+	// 8. interface methods whose modifiers / own type-parameter list stand on the line ABOVE the return type: the
+	// declaration starts on that upper line, so the length is measured from there and every method-level finding names it
+	for _, d := range offs() {
+		for _, v := range []string{"methodLen/iface-default", "methodLen/iface-static/generic", "params/iface-abstract/generic", "params/iface-default", "topIfs/iface-default/generic"} {
+			d, v := d, v
+			points = append(points, point{v[:strIndex(v, "/")] + ":" + tagOff(d) + v[strIndex(v, "/"):] + "/modifiers-on-previous-line", func(g *gen) *classSpec {
+				form := "iface-default"
+				switch {
+				case strContains(v, "iface-static"):
+					form = "iface-static"
+				case strContains(v, "iface-abstract"):
+					form = "iface-abstract"
+				}
+				ms := g.plain(form)
+				ms.split = true
+				ms.brace = "same"
+				ms.generic = strContains(v, "generic")
+				if !ms.generic && ms.mods == "" {
+					ms.mods = "public"
+				}
+				ms.params = g.r.Intn(3)
+				switch v[:strIndex(v, "/")] {
+				case "methodLen":
+					ms.target = tLen + d
+					if g.r.Bool() {
+						ms.body = append(ms.body, g.ifS(1, false))
+					}
+				case "params":
+					ms.params = tParams + d
+					ms.wrap = g.r.Intn(3)
+					if ms.hasBody() {
+						ms.body = g.simples(g.r.Intn(3))
+					}
+				default:
+					var body []stmtSpec
+					for i := 0; i < tRepeat+d; i++ {
+						body = append(body, g.tinyIf())
+					}
+					ms.body = g.mix(body)
+				}
+				return g.host("interface", false, ms)
+			}})
+		}
+	}
+	// 9. lambdas with explicitly typed parameters in the body of a method whose own parameter count is 3..7: the
+	// lambda's parameters are not the method's
+	for _, d := range offs() {
+		for _, form := range []string{"class", "iface-default"} {
+			d, form := d, form
+			points = append(points, point{"params:" + tagOff(d) + "/" + form + "/typed-lambdas-in-body", func(g *gen) *classSpec {
+				ms := g.plain(form)
+				ms.params = tParams + d
+				ms.wrap = g.r.Intn(3)
+				ms.body = g.mix([]stmtSpec{lambdaStmt(g.r, g.r.Range(1, 2), 1), lambdaStmt(g.r, g.r.PickInt(0, 1, 2, 3), 2), g.ifS(1, false)})
+				return g.host(kindOf(form), false, ms)
+			}})
+		}
+	}
 }
+
+func strIndex(s, sub string) int {
+	for i := 0; i+len(sub) <= len(s); i++ {
+		if s[i:i+len(sub)] == sub {
+			return i
+		}
+	}
+	return -1
+}
+
+func strContains(s, sub string) bool { return strIndex(s, sub) >= 0 }
 
 // mix shuffles top-level statements and sprinkles one-line fillers between them.
 func (g *gen) mix(body []stmtSpec) []stmtSpec {
@@ -702,6 +771,7 @@ func (g *gen) richMethod(cs *classSpec) *methodSpec {
 	}
 	ms.varargs = ms.params > 0 && g.r.Chance(1, 6)
 	ms.generic = g.r.Chance(1, 10)
+	ms.split = cs.kind == "interface" && g.r.Chance(1, 4)
 	ms.wrap = g.r.PickInt(0, 0, 1, 2)
 	if !ms.hasBody() {
 		return ms
@@ -745,6 +815,11 @@ func (g *gen) richMethod(cs *classSpec) *methodSpec {
 	}
 	if ms.form == "class" && g.r.Chance(1, 8) {
 		stm = append(stm, stmtSpec{kind: "sync", body: []stmtSpec{g.tinyIf()}})
+	}
+	if g.r.Chance(1, 5) {
+		for i, n := 0, g.r.Range(1, 2); i < n; i++ {
+			stm = append(stm, lambdaStmt(g.r, g.r.PickInt(0, 1, 2, 2, 3), i+1))
+		}
 	}
 	ms.body = g.mix(stm)
 	if g.r.Chance(1, 2) {
@@ -832,7 +907,7 @@ func Rich(r *run.Rand) *Project {
 		m := g.plain("class")
 		m.params = p
 		m.wrap = g.r.Intn(3)
-		m.body = g.simples(g.r.Intn(3))
+		m.body = append(g.simples(g.r.Intn(3)), lambdaStmt(g.r, g.r.Range(1, 3), 1))
 		ms = append(ms, m)
 	}
 	// compact forms keep the project small (it is analysed 128 times): one-line ifs, switches with a default group only
@@ -927,6 +1002,15 @@ func Rich(r *run.Rand) *Project {
 		if g.r.Bool() {
 			m := g.plain("iface-abstract")
 			m.params = tParams + 1
+			cs.methods = append(cs.methods, m)
+		}
+		// two default methods whose `default <T extends Comparable<T>>` stands on the line above the return type: one is
+		// 31 lines from that line, the other 30
+		for _, l := range []int{tLen + 1, tLen} {
+			m := g.plain("iface-default")
+			m.split, m.generic, m.brace, m.lead = true, l > tLen, "same", 0
+			m.params = tParams + g.r.Range(0, 2)
+			m.target = l
 			cs.methods = append(cs.methods, m)
 		}
 		specs = append(specs, cs)
